@@ -8,6 +8,9 @@ import (
 	"io"
 	"os"
 	"path/filepath"
+	"reflect"
+	"time"
+	"unsafe"
 
 	"github.com/Tnze/go-mc/save/region"
 
@@ -62,13 +65,67 @@ func entryOf(img []byte, x, z int) (sec, cnt int) {
 	return int(v >> 8), int(v & 0xff)
 }
 
+// slotOf reads the chunk's timestamp slot in the second header sector.
+func slotOf(img []byte, x, z int) int32 {
+	if len(img) < 8192 {
+		return 0
+	}
+	return int32(binary.BigEndian.Uint32(img[4096+4*(z*32+x):]))
+}
+
 func fileSectors(img []byte) int { return (len(img) + 4095) / 4096 }
+
+// offsetsOf gives read access to the handle's unexported offsets table ("sector number <<8 | sector count per chunk").
+// The statement compares what a fresh Load returns with what the handle holds; a fresh Load returns the header words,
+// so the table is compared with them word by word. nil when the field is not there in the expected shape.
+func offsetsOf(reg *region.Region) *[32][32]int32 {
+	if reg == nil {
+		return nil
+	}
+	f := reflect.ValueOf(reg).Elem().FieldByName("offsets")
+	if !f.IsValid() || !f.CanAddr() || f.Type() != reflect.TypeOf([32][32]int32{}) {
+		return nil
+	}
+	return (*[32][32]int32)(unsafe.Pointer(f.UnsafeAddr()))
+}
+
+var offsetsUnreadable bool
+
+// offsetsMatchHeader compares every entry of the handle's table with the location word in the first header sector.
+func offsetsMatchHeader(c *vm.Ctx, reg *region.Region, hdr []byte, h *hist, sigPrefix, after string) bool {
+	off := offsetsOf(reg)
+	if off == nil {
+		if reg != nil && !offsetsUnreadable {
+			offsetsUnreadable = true
+			c.Inconclusive("region.Region has no field offsets of type [32][32]int32: the handle's offsets cannot be compared with the header")
+		}
+		return true
+	}
+	if len(hdr) < 4096 {
+		return true
+	}
+	for z := 0; z < 32; z++ {
+		for x := 0; x < 32; x++ {
+			if w := binary.BigEndian.Uint32(hdr[4*(z*32+x):]); w != uint32(off[z][x]) {
+				hw := h.wit().(map[string]any)
+				hw["chunk"], hw["header_word"], hw["handle_offset"] = [2]int{x, z}, w, uint32(off[z][x])
+				c.Violation(sigPrefix+"offset-entry", fmt.Sprintf("after %s chunk (%d,%d): the file's header holds sector %d count %d, the handle holds sector %d count %d (a fresh Load would return the former)", after, x, z, w>>8, w&0xff, uint32(off[z][x])>>8, uint32(off[z][x])&0xff), hw)
+				return false
+			}
+		}
+	}
+	c.Cover("offsets.handle-equals-header")
+	return true
+}
 
 // validate checks the whole image against the model. full=false compares data of chunk `only` alone.
 func validate(c *vm.Ctx, img []byte, model map[[2]int][]byte, h *hist, full bool, only [2]int, after string) bool {
 	chunks, err := refwire.ParseAnvil(img)
 	if err != nil {
 		c.Violation("anvil/invalid/"+vm.NormMsg(err.Error()), fmt.Sprintf("after %s the file is not a valid Anvil region: %v", after, err), h.wit())
+		return false
+	}
+	if h.reg != nil && !offsetsMatchHeader(c, h.reg(), img, h, "anvil/", after) {
 		return false
 	}
 	if len(chunks) != len(model) {
@@ -135,7 +192,7 @@ func runHistory(c *vm.Ctx, r *vm.Rand, hi int, nops int, flavour string, big boo
 	c.EvalN(int64(len(ops)), vm.HashStr("hist", flavour, fmt.Sprint(c.Shard, hi)), true)
 	ok := true
 	pan := c.Guard("ops", h.wit, func() {
-		for oi, op := range ops {
+		for _, op := range ops {
 			key := [2]int{op.X, op.Z}
 			switch op.Kind {
 			case "write":
@@ -148,7 +205,10 @@ func runHistory(c *vm.Ctx, r *vm.Rand, hi int, nops int, flavour string, big boo
 					snapshot = append([]byte{}, imgBefore...)
 				}
 				h.add(fmt.Sprintf("WriteSector(%d,%d,%d bytes)", op.X, op.Z, op.Size))
+				tsBefore := slotOf(imgBefore, op.X, op.Z)
+				t0 := time.Now().Unix()
 				werr := reg.WriteSector(op.X, op.Z, data)
+				t1 := time.Now().Unix()
 				img := st.image()
 				if op.Size > regiongen.MaxOK {
 					if werr == nil {
@@ -162,9 +222,40 @@ func runHistory(c *vm.Ctx, r *vm.Rand, hi int, nops int, flavour string, big boo
 						return
 					}
 					c.Cover("write.refused-over-limit")
-					if !validate(c, img, model, h, false, key, "a refused write") {
+					if !validate(c, img, model, h, true, key, "a refused write") {
 						ok = false
 						return
+					}
+					// "without changing anything" includes what the handle remembers. If the refusal released the
+					// chunk's run in the handle's occupancy map, the file does not show it until an allocation lands
+					// there: ask for one of exactly that size, for a chunk that does not exist yet
+					if ocnt > 0 && len(model) < 1024 {
+						pk := [2]int{31, 31}
+						for i := 1023; i >= 0; i-- {
+							if _, used := model[[2]int{i % 32, i / 32}]; !used {
+								pk = [2]int{i % 32, i / 32}
+								break
+							}
+						}
+						pop := regiongen.Op{Kind: "write", X: pk[0], Z: pk[1], Size: ocnt*4096 - 4, Tag: op.Tag ^ 0x5a5a}
+						pdata := regiongen.Payload(pop)
+						h.add(fmt.Sprintf("WriteSector(%d,%d,%d bytes) (a new chunk as large as the run of the chunk whose write was refused: sector %d, %d sectors)", pop.X, pop.Z, pop.Size, osec, ocnt))
+						if perr := reg.WriteSector(pop.X, pop.Z, pdata); perr != nil {
+							c.Violation("write/error", fmt.Sprintf("WriteSector(%d,%d,%d bytes) failed: %v", pop.X, pop.Z, pop.Size, perr), h.wit())
+							ok = false
+							return
+						}
+						model[pk] = pdata
+						pimg := st.image()
+						if !validate(c, pimg, model, h, true, pk, "the first allocation after a refused write") {
+							ok = false
+							return
+						}
+						if psec, _ := entryOf(pimg, pop.X, pop.Z); psec > osec {
+							// no earlier hole took it: first-fit went over the refused chunk's run and left it alone
+							c.Cover("write.refused.next-allocation-passed-over-its-run")
+						}
+						c.Cover("write.refused.probed-by-allocation")
 					}
 					continue
 				}
@@ -220,9 +311,32 @@ func runHistory(c *vm.Ctx, r *vm.Rand, hi int, nops int, flavour string, big boo
 				if op.Size == regiongen.MaxOK {
 					c.Cover("write.maximum-size")
 				}
-				if !validate(c, img, model, h, oi%16 == 15, key, fmt.Sprintf("WriteSector(%d,%d,%d bytes)", op.X, op.Z, op.Size)) {
+				// every chunk's stored bytes are compared after every write (the parse has walked the file anyway):
+				// damage to another chunk must not be able to hide behind a later rewrite of that chunk
+				if !validate(c, img, model, h, true, key, fmt.Sprintf("WriteSector(%d,%d,%d bytes)", op.X, op.Z, op.Size)) {
 					ok = false
 					return
+				}
+				// the timestamp slot: "last write time". A write that allocated (first write, grow, shrink) must
+				// leave a clock value read during the call; one that overwrote in place may also keep the old value.
+				// The two clock readings only bracket a value the library read itself; no deadline is involved.
+				if t1 >= t0 {
+					ts := int64(slotOf(img, op.X, op.Z))
+					inPlace := osec != 0 && nsec == osec && ncnt == ocnt
+					if !(ts >= t0 && ts <= t1) && !(inPlace && ts == int64(tsBefore)) {
+						hw := h.wit().(map[string]any)
+						hw["slot_before"], hw["slot_after"], hw["clock_before_call"], hw["clock_after_call"], hw["in_place"] = tsBefore, ts, t0, t1, inPlace
+						c.Violation("timestamp/not-the-time-of-the-write", fmt.Sprintf("WriteSector(%d,%d,%d bytes) left timestamp %d in the chunk's slot (before: %d); the clock read %d before and %d after the call", op.X, op.Z, op.Size, ts, tsBefore, t0, t1), hw)
+						ok = false
+						return
+					}
+					if !inPlace {
+						c.Cover("timestamp.allocating-write-within-clock-bracket")
+					} else if ts != int64(tsBefore) {
+						c.Cover("timestamp.in-place-write-refreshed")
+					} else {
+						c.Cover("timestamp.in-place-write-kept")
+					}
 				}
 			case "read":
 				h.add(fmt.Sprintf("ReadSector(%d,%d)", op.X, op.Z))
@@ -296,6 +410,18 @@ func runHistory(c *vm.Ctx, r *vm.Rand, hi int, nops int, flavour string, big boo
 							return
 						}
 					}
+				}
+				if o1, o2 := offsetsOf(reg), offsetsOf(reg2); o1 != nil && o2 != nil {
+					for z := 0; z < 32; z++ {
+						for x := 0; x < 32; x++ {
+							if o1[z][x] != o2[z][x] {
+								c.Violation("reopen/offsets-differ/value", fmt.Sprintf("chunk (%d,%d): the old handle holds sector %d count %d, a fresh Load returns sector %d count %d", x, z, uint32(o1[z][x])>>8, o1[z][x]&0xff, uint32(o2[z][x])>>8, o2[z][x]&0xff), h.wit())
+								ok = false
+								return
+							}
+						}
+					}
+					c.Cover("offsets.old-handle-equals-fresh-load")
 				}
 				if reg2.Timestamps != reg.Timestamps {
 					// find the first differing coordinate for the witness
